@@ -209,6 +209,7 @@ def _run(self, extra=None):
             raise
         pr.read(self, dep, v)
         dep_digests.append(v.digest if isinstance(v, Value) else f'<non-value {type(v).__name__}>')
+        del v       # the frame of a run() that fails later must not keep a dependency's value alive
     pr.work(self)
     val = Value(
         tname=f'{type(self).__module__.rsplit(".", 1)[-1]}.{type(self).__qualname__}',
